@@ -1,20 +1,24 @@
 #!/bin/bash
 # usage: confirm_multi.sh <worktree> [<n>]  -- a worktree with change_i.diff + demo_i.py (i = 1..n, default 6), tree unmodified.
-# For each i: apply the change alone, run the tests and the demo, run all 16 quick checks, revert; prints one line per change.
+# For each i: apply the change alone, run the tests and the demo, run all 16 quick checks (in parallel), revert; one line per change.
 W=$1; N=${2:-6}; cd $W || exit 2
 if [ -n "$(git diff --stat -- Geometry3D)" ]; then echo "tree not clean"; exit 2; fi
+E=/tmp/ev/multi_$(basename $W); mkdir -p $E
 for i in $(seq 1 $N); do
   [ -s change_$i.diff ] || { echo "$i: no change_$i.diff"; continue; }
-  PYTHONPATH=$W /venv/bin/python demo_$i.py >/dev/null 2>&1; d0=$?
+  PYTHONPATH=$W /venv/bin/python -B demo_$i.py >/dev/null 2>&1; d0=$?
   git apply change_$i.diff || { echo "$i: does not apply"; continue; }
-  t=$(PYTHONPATH=$W /venv/bin/python -m pytest -q -p no:cacheprovider unit_tests 2>&1 | tail -1 | cut -c1-30)
-  PYTHONPATH=$W /venv/bin/python demo_$i.py >/dev/null 2>&1; d1=$?
+  t=$(PYTHONPATH=$W /venv/bin/python -B -m pytest -q -p no:cacheprovider unit_tests 2>&1 | tail -1 | cut -c1-30)
+  PYTHONPATH=$W /venv/bin/python -B demo_$i.py >/dev/null 2>&1; d1=$?
+  printf '%s\n' C01 C02 C03 C04 C05 C06 C07 C08 C10 C11 C12 C14 C15 C18 C19 C20 | xargs -P 16 -I{} sh -c \
+    "cd /verif && /venv/bin/python -m g3dsa.check {} --repo $W --evidence-dir $E/ev_{} > $E/{}.out 2>&1; echo \$? > $E/{}.rc"
   det=""; closed=""
   for p in C01 C02 C03 C04 C05 C06 C07 C08 C10 C11 C12 C14 C15 C18 C19 C20; do
-    (cd /verif && /venv/bin/python -m g3dsa.check $p --repo $W --evidence-dir /tmp/ev > /tmp/ev/multi_$p.out 2>&1); rc=$?
-    if [ $rc -eq 1 ]; then r=$(grep -m1 -oE ': R[0-9]+\.[0-9]+[a-z]? ' /tmp/ev/multi_$p.out | tr -d ': '); det="$det $p($r)"; fi
-    if [ $rc -eq 2 ]; then closed="$closed $p"; fi
+    rc=$(cat $E/$p.rc)
+    if [ "$rc" = 1 ]; then r=$(grep -m1 -oE ': R[0-9]+\.[0-9]+[a-z]? ' $E/$p.out | tr -d ': '); det="$det $p($r)"; fi
+    if [ "$rc" = 2 ]; then closed="$closed $p"; fi
   done
   git apply -R change_$i.diff
   echo "$i: tests[$t] demo orig=$d0 changed=$d1 | reported by:${det:- NONE} | fail-closed:${closed:- -}"
 done
+rm -rf $E
